@@ -406,6 +406,15 @@ NULL = _Null()
 #    from ordereddict import OrderedDict as odict
 
 from copy import copy
+def _kwonlyargs(func):
+    """names of the keyword-only arguments of func (or of what func wraps:
+    a partial, a callable instance)"""
+    func = getattr(func, 'func', func)
+    if not inspect.isroutine(func) and not inspect.isclass(func) \
+       and hasattr(func, '__call__'): func = func.__call__
+    try: return tuple(inspect.getfullargspec(func).kwonlyargs)
+    except TypeError: return ()
+
 def _keygen(func, ignored, /, *args, **kwds):
     """generate a 'key' from the (*args,**kwds) suitable for use in caching
 
@@ -488,8 +497,10 @@ def _keygen(func, ignored, /, *args, **kwds):
     _keys = tuple(user_kwds.keys()) + explicitly_named
     user_kwds.update(dict([(k,NULL) for k in names_to_ignore if k in _keys]))
     # if ignoring **kwds, then pop all not in explicitly_named
+    # (keyword-only arguments are parameters, not members of **kwds)
     if varkwds_to_ignore:
-        [user_kwds.pop(k) for k in kwds if k not in explicitly_named]
+        kwonly = _kwonlyargs(func)
+        [user_kwds.pop(k) for k in kwds if k not in explicitly_named and k not in kwonly]
 
     # NULL out args that are NULL'ed as kwds, and vice-versa 
 #   if crossref:
